@@ -180,14 +180,26 @@ fn record(seed: u64, thorough: bool, shards: usize, prefix: &str) -> Value {
                 background: col(&mut r, k / 4),
                 font_style: syntect::highlighting::FontStyle::from_bits_truncate(fs),
             };
-            let a = anstyle_syntect::to_anstyle(st);
-            let ev = json!({"lib":"syntect","src":{"fg":[st.foreground.r, st.foreground.g, st.foreground.b, st.foreground.a],
-                "bg":[st.background.r, st.background.g, st.background.b, st.background.a],
-                "bold":st.font_style.contains(syntect::highlighting::FontStyle::BOLD),
-                "italic":st.font_style.contains(syntect::highlighting::FontStyle::ITALIC),
-                "underline":st.font_style.contains(syntect::highlighting::FontStyle::UNDERLINE)},"st":style_json(&a),"bytes":[]});
-            writeln!(files[n % shards], "{ev}").unwrap();
-            n += 1;
+            // the style, then three neighbours on the same thread that differ in ONE field each (background, foreground, font):
+            // nothing remembered from the previous conversion may be served for a different input
+            let mut variants = vec![st];
+            let mut v = st;
+            v.background.b = v.background.b.wrapping_add(1);
+            variants.push(v);
+            v.foreground.r = v.foreground.r.wrapping_add(1);
+            variants.push(v);
+            v.font_style = syntect::highlighting::FontStyle::from_bits_truncate((fs + 1) % 8);
+            variants.push(v);
+            for st in variants {
+                let a = anstyle_syntect::to_anstyle(st);
+                let ev = json!({"lib":"syntect","src":{"fg":[st.foreground.r, st.foreground.g, st.foreground.b, st.foreground.a],
+                    "bg":[st.background.r, st.background.g, st.background.b, st.background.a],
+                    "bold":st.font_style.contains(syntect::highlighting::FontStyle::BOLD),
+                    "italic":st.font_style.contains(syntect::highlighting::FontStyle::ITALIC),
+                    "underline":st.font_style.contains(syntect::highlighting::FontStyle::UNDERLINE)},"st":style_json(&a),"bytes":[]});
+                writeln!(files[n % shards], "{ev}").unwrap();
+                n += 1;
+            }
         }
     }
     for f in files.iter_mut() {
